@@ -91,7 +91,7 @@ pub fn cases() -> Vec<Case> {
     let mut out = Vec::new();
     out.push(mk_case(
         "Bytecode::views",
-        &["len", "is_empty", "original_bytes", "original_byte_slice", "hash_slow", "new_raw_checked", "new_raw", "new_legacy", "is_eof", "is_eip7702", "is_execution_ready", "to_analysed", "original_len", "raw", "size"],
+        &["len", "is_empty", "original_bytes", "original_byte_slice", "hash_slow", "new_raw_checked", "new_raw", "new_legacy", "is_eof", "is_eip7702", "is_execution_ready", "original_len", "raw", "size"],
         false,
         vec![("bytes", Kind::Hex), ("form", Kind::Str)],
         || samples().into_iter().map(|(b, f)| vec![Val::Hex(b), Val::Str(f.to_string())]).collect(),
@@ -163,6 +163,98 @@ pub fn cases() -> Vec<Case> {
                     Ok(b) => describe(&b),
                     Err(e) => format!("Err({:?})", e),
                 },
+            }
+        },
+    ));
+
+    // to_analysed / analyze: padded copy + jump table
+    out.push(mk_case(
+        "analysis::to_analysed",
+        &["to_analysed", "analyze"],
+        false,
+        vec![("code", Kind::Hex)],
+        || {
+            let mut v: Vec<Vec<u8>> = vec![
+                vec![],
+                vec![0x00],
+                vec![0x5b],
+                vec![0x5b, 0x00],
+                vec![0x60, 0x00],                   // PUSH1 0x00: the last byte 00 is push data
+                vec![0x5b, 0x60, 0x00],
+                vec![0x61, 0x00],                   // truncated PUSH2 00
+                vec![0x61, 0x5b, 0x00],
+                vec![0x60],                         // PUSH1 without data
+                vec![0x7f],                         // PUSH32 without data
+                vec![0x60, 0x5b, 0x5b],             // JUMPDEST byte inside push data, then a real one
+                vec![0x61, 0x5b, 0x5b, 0x5b],
+                vec![0x5f, 0x5b],                   // PUSH0 has no immediate
+                vec![0x00, 0x5b, 0x00],
+                vec![0xfe, 0x5b],
+                vec![0x5b; 80],
+            ];
+            // PUSH32 / PUSHn with fewer bytes than n, ending in 00, with JUMPDEST bytes inside
+            for n in [2usize, 5, 16, 31, 32] {
+                for have in [0usize, 1, n / 2, n - 1, n, n + 1, n + 2] {
+                    let mut c = vec![0x5b, 0x5f + n as u8];
+                    c.extend((0..have).map(|i| if i % 3 == 0 { 0x5b } else { 0x11 }));
+                    v.push(c.clone());
+                    c.push(0x00);
+                    v.push(c.clone());
+                    c.push(0x5b);
+                    v.push(c);
+                }
+            }
+            // EOF-only opcode bytes (immediates in EOF, none in legacy code) followed by JUMPDESTs
+            for op in [0xd0u8, 0xd1, 0xd2, 0xd3, 0xe0, 0xe1, 0xe2, 0xe3, 0xe4, 0xe5, 0xe6, 0xe7, 0xe8, 0xec, 0xed, 0xee, 0xef, 0xf7, 0xf8, 0xf9, 0xfb] {
+                v.push(vec![op, 0x5b, 0x5b, 0x5b, 0x5b]);
+                v.push(vec![0x5b, op, 0x5b, 0x00, 0x5b, 0x5b, 0x00]);
+                v.push(vec![op, 0x02, 0x5b, 0x5b, 0x5b, 0x5b, 0x5b, 0x5b, 0x5b]); // e2 = RJUMPV: immediate depends on the next byte in EOF
+            }
+            // every opcode byte followed by JUMPDESTs
+            for op in 0..=255u8 {
+                let mut c = vec![op];
+                c.extend([0x5b; 34]);
+                v.push(c);
+            }
+            v.into_iter().map(|c| vec![Val::Hex(c)]).collect()
+        },
+        |r| {
+            let n = r.below(81) as usize;
+            let pool: [u8; 24] = [0x00, 0x5b, 0x5b, 0x5b, 0x60, 0x60, 0x61, 0x62, 0x6f, 0x7e, 0x7f, 0x5f, 0xd1, 0xe0, 0xe1, 0xe2, 0xe3, 0xe8, 0xec, 0xee, 0x56, 0x57, 0xfe, 0xff];
+            let mut c: Vec<u8> = (0..n).map(|_| if r.below(5) == 0 { r.next() as u8 } else { pool[r.below(24) as usize] }).collect();
+            if n > 0 && r.below(3) == 0 {
+                c[n - 1] = 0x00;
+            }
+            vec![Val::Hex(c)]
+        },
+        |a| {
+            let code = a[0].bytes();
+            let len = code.len();
+            // Yellow Paper (9.4.3): valid destinations = JUMPDEST bytes that are not inside PUSH data
+            let mut dests: Vec<usize> = Vec::new();
+            let mut i = 0usize;
+            while i < len {
+                let op = code[i];
+                if op == 0x5b {
+                    dests.push(i);
+                }
+                i += if (0x60..=0x7f).contains(&op) { 1 + (op as usize - 0x5f) } else { 1 };
+            }
+            let mut padded = code.to_vec();
+            padded.extend([0u8; 33]);
+            Some(format!("kind=LegacyAnalyzed original_len={} original_bytes={} bytecode={} jump_table_bits={} jumpdests={:?}", len, hex_of(code), hex_of(&padded), len + 33, dests))
+        },
+        |a| {
+            let b = to_analysed(Bytecode::new_legacy(Bytes::from(a[0].bytes().to_vec())));
+            match &b {
+                Bytecode::LegacyAnalyzed(l) => {
+                    let t = l.jump_table();
+                    let dests: Vec<usize> = (0..t.0.len().max(l.bytecode().len())).filter(|i| t.is_valid(*i)).collect();
+                    format!("kind=LegacyAnalyzed original_len={} original_bytes={} bytecode={} jump_table_bits={} jumpdests={:?}", l.original_len(), hex_of(&b.original_bytes()), hex_of(l.bytecode()), t.0.len(), dests)
+                }
+                Bytecode::LegacyRaw(_) => "kind=LegacyRaw".to_string(),
+                Bytecode::Eof(_) => "kind=Eof".to_string(),
+                Bytecode::Eip7702(_) => "kind=Eip7702".to_string(),
             }
         },
     ));
